@@ -107,10 +107,89 @@ func goParse(a []string) string {
 	if alloc > uint64(allocPerByte*len(bs)+allocSlack) {
 		return fmt.Sprintf("FAIL alloc %d_bytes_for_%d_input_bytes", alloc, len(bs))
 	}
+	// the single-root wrapper on the same bytes: no panic, an error exactly when the bag is rejected or has not one root
+	{
+		var c1 *boc.Cell
+		var e1 error
+		if p, what := safely(func() { c1, e1 = boc.DeserializeSingleRootBoc(bs) }); p {
+			return "FAIL single-root-panic " + what
+		}
+		if (e1 == nil) != (err == nil && len(roots) == 1) || (e1 == nil && c1 == nil) {
+			return "FAIL single-root-result"
+		}
+	}
 	if err != nil {
 		return "ok"
 	}
 	return checkParsed(roots)
+}
+
+// go.carrier <hex of a string>: every string / JSON entry point of the reader on an ARBITRARY string (empty, a few
+// characters, odd-length hex, bad alphabet, valid carriers of malformed bags, truncated carriers, JSON quoting debris):
+// none may panic or allocate out of proportion; the single-root forms accept exactly the one-root bags; the Must… forms
+// panic exactly when their plain form returns an error; Cell.UnmarshalJSON rejects bags with several roots.
+func goCarrier(a []string) string {
+	s := string(h.MustUnHex(a[0]))
+	budget := uint64(allocPerByte*len(s) + allocSlack)
+	guard := func(name string, f func()) string {
+		var m0, m1 runtime.MemStats
+		runtime.ReadMemStats(&m0)
+		p, what := safely(f)
+		runtime.ReadMemStats(&m1)
+		if p {
+			return "FAIL carrier-panic " + name + "_" + what
+		}
+		if d := m1.TotalAlloc - m0.TotalAlloc; d > budget {
+			return fmt.Sprintf("FAIL carrier-alloc %s_%d_bytes_for_%d", name, d, len(s))
+		}
+		return ""
+	}
+	var rh, rb []*boc.Cell
+	var eh, eb, esh, esb, ej error
+	var ch, cb *boc.Cell
+	var cj boc.Cell
+	for _, st := range []struct {
+		name string
+		f    func()
+	}{
+		{"DeserializeBocHex", func() { rh, eh = boc.DeserializeBocHex(s) }},
+		{"DeserializeBocBase64", func() { rb, eb = boc.DeserializeBocBase64(s) }},
+		{"DeserializeSinglRootHex", func() { ch, esh = boc.DeserializeSinglRootHex(s) }},
+		{"DeserializeSinglRootBase64", func() { cb, esb = boc.DeserializeSinglRootBase64(s) }},
+		{"Cell.UnmarshalJSON", func() { ej = cj.UnmarshalJSON([]byte(s)) }},
+	} {
+		if msg := guard(st.name, st.f); msg != "" {
+			return msg
+		}
+	}
+	if (esh == nil) != (eh == nil && len(rh) == 1) || (esh == nil && ch == nil) {
+		return "FAIL carrier-single-root hex"
+	}
+	if (esb == nil) != (eb == nil && len(rb) == 1) || (esb == nil && cb == nil) {
+		return "FAIL carrier-single-root base64"
+	}
+	// Must…: panic by contract, but only on error results
+	if p, _ := safely(func() { boc.MustDeserializeSinglRootHex(s) }); p != (esh != nil) {
+		return "FAIL carrier-must hex"
+	}
+	if p, _ := safely(func() { boc.MustDeserializeSinglRootBase64(s) }); p != (esb != nil) {
+		return "FAIL carrier-must base64"
+	}
+	// JSON: the document is the hex form between optional quotes; several roots are an error
+	{
+		inner, e2 := boc.DeserializeBocHex(strings.Trim(s, "\""))
+		if (ej == nil) != (e2 == nil && len(inner) == 1) {
+			return fmt.Sprintf("FAIL carrier-json accepted=%v_roots=%d", ej == nil, len(inner))
+		}
+	}
+	for _, rs := range [][]*boc.Cell{rh, rb} {
+		if rs != nil {
+			if msg := checkParsed(rs); msg != "ok" {
+				return msg
+			}
+		}
+	}
+	return "ok"
 }
 
 // checkParsed: soundness of cells returned by the parser.
@@ -202,6 +281,7 @@ var bocExec = map[string]h.ExecFn{
 	"boc.tostring": exBocToString,
 	"boc.parse":    exBocParse,
 	"go.parse":     goParse,
+	"go.carrier":   goCarrier,
 }
 
 func withBoc(m map[string]h.ExecFn) map[string]h.ExecFn {
